@@ -1,7 +1,8 @@
 """common driver of the CoPdo-based checks (C12, C13, C14, C16)"""
 import common, node_common, node_check
 
-OBJ = [("a", 0x2100, 0x0F, 1), ("b", 0x2101, 0x0F, 1), ("w", 0x2102, 0x07, 2), ("l", 0x2103, 0x07, 4), ("r", 0x2104, 0x06, 1), ("n", 0x2105, 0x03, 1)]
+OBJ = [("a", 0x2100, 0x0F, 1), ("b", 0x2101, 0x0F, 1), ("w", 0x2102, 0x07, 2), ("l", 0x2103, 0x07, 4), ("r", 0x2104, 0x06, 1), ("n", 0x2105, 0x03, 1),
+       ("W", 0x2106, 0x0F, 2), ("L", 0x2107, 0x0F, 4)]
 
 def val32(b):
     return b[0] | (b[1] << 8) | (b[2] << 16) | (b[3] << 24)
